@@ -15,6 +15,9 @@ def main():
     if os.environ.get('VERIF_TIER'):
         tier = os.environ['VERIF_TIER']
     seed = int(os.environ.get('VERIF_SEED', '0') or 0)
+    if tier == 'thorough':
+        from . import smt
+        smt.CONFIRM_WAIT = 4.0
     try:
         return mod.run(tier, seed)
     except core.EngineError as e:
